@@ -27,17 +27,27 @@ func scenario(ps *pkgSpec) func(x *mc.X) {
 	return func(x *mc.X) {
 		o := cache[ps.Name]
 		if o == nil || os.Getenv("C08_NOCACHE") != "" {
-			o = &outcome{counts: map[string]int64{}}
-			dir := filepath.Join(c08Root(), fmt.Sprintf("%s-%d", strings.ReplaceAll(ps.Name, "/", "_"), os.Getpid()))
-			r := &runner{ps: ps, dir: dir, gombok: ensureGombok(), out: o}
-			r.run()
-			o.count("gombok-runs", int64(r.nGen))
-			o.count("go-builds", int64(r.nBuild))
-			if d := os.Getenv("C08_DUMP"); d != "" { // development aid: keep the last state of the scratch module
-				os.MkdirAll(d, 0o755)
-				exec.Command("cp", "-r", dir, filepath.Join(d, strings.ReplaceAll(ps.Name, "/", "_"))).Run()
+			o = runPackage(ps)
+			// a package that reports something is run again from scratch: only verdicts that
+			// reproduce are reported (the Go build cache and the toolchain are shared with other
+			// jobs on the machine; a disturbed run must not become a violation)
+			if len(o.reports) > 0 {
+				time.Sleep(3 * time.Second)
+				o2 := runPackage(ps)
+				if reportKeys(o) != reportKeys(o2) {
+					time.Sleep(10 * time.Second)
+					o3 := runPackage(ps)
+					switch reportKeys(o3) {
+					case reportKeys(o2):
+						o = o2
+					case reportKeys(o):
+					default:
+						o3.reports = nil
+						o3.incomplete = ps.Name + ": three runs of the pipeline gave three different sets of verdicts (disturbed environment); nothing reported"
+						o = o3
+					}
+				}
 			}
-			os.RemoveAll(dir)
 			cache[ps.Name] = o
 		}
 		for _, l := range o.log {
@@ -63,6 +73,30 @@ func scenario(ps *pkgSpec) func(x *mc.X) {
 			x.NonTrivial()
 		}
 	}
+}
+
+func reportKeys(o *outcome) string {
+	var ks []string
+	for _, r := range o.reports {
+		ks = append(ks, r.key)
+	}
+	sort.Strings(ks)
+	return strings.Join(ks, "\n")
+}
+
+func runPackage(ps *pkgSpec) *outcome {
+	o := &outcome{counts: map[string]int64{}}
+	dir := filepath.Join(c08Root(), fmt.Sprintf("%s-%d", strings.ReplaceAll(ps.Name, "/", "_"), os.Getpid()))
+	r := &runner{ps: ps, dir: dir, gombok: ensureGombok(), out: o}
+	r.run()
+	o.count("gombok-runs", int64(r.nGen))
+	o.count("go-builds", int64(r.nBuild))
+	if d := os.Getenv("C08_DUMP"); d != "" { // development aid: keep the last state of the scratch module
+		os.MkdirAll(d, 0o755)
+		exec.Command("cp", "-r", dir, filepath.Join(d, strings.ReplaceAll(ps.Name, "/", "_"))).Run()
+	}
+	os.RemoveAll(dir)
+	return o
 }
 
 func main() {
